@@ -12,3 +12,4 @@ open SophiaProofs.C06
 #print axioms escapes_as_specified
 #print axioms C06_witness_agrees
 #print axioms C06_family_agrees
+#print axioms fails_only_explicitly
